@@ -50,7 +50,7 @@ CHECK_FLAGS = [
 MEM_KB = 16 * 1024 * 1024
 
 LABEL_RE = re.compile(r"(?:/\*@\s*|\b(?:ENSX?|REQ)\(\s*\")([A-Za-z0-9+]+/[\w.\-]+)(?:\s*\*/|\")")
-DESC_LABEL_RE = re.compile(r"^((?:C\d\d\+?)+|canary|reach)/[\w.\-]+$")
+DESC_LABEL_RE = re.compile(r"^((?:(?:C\d\d|INV)\+?)+|canary|reach)/[\w.\-]+$")
 
 
 class NoVerdict(Exception):
@@ -129,7 +129,12 @@ def props_of(label):
     head = label.split("/", 1)[0]
     if head in ("canary", "reach"):
         return []
-    return head.split("+")
+    out = []
+    for t in head.split("+"):
+        # INV: a clause the representation invariant of reproc_t rests on - a premise
+        # of every property stated over API call histories
+        out += specs.HISTORY_PROPS if t == "INV" else [t]
+    return out
 
 
 # --------------------------------------------------------------------------
